@@ -3,6 +3,8 @@
 pub mod c01;
 pub mod c04;
 pub mod c05;
+pub mod c06;
+pub mod c07;
 pub mod c08;
 pub mod c09;
 pub mod c10;
@@ -27,6 +29,8 @@ pub fn monitors_for(prop: &str) -> Vec<Box<dyn Monitor>> {
         "C01" => vec![Box::new(c01::C01::default())],
         "C04" => vec![Box::new(c04::C04)],
         "C05" => vec![Box::new(c05::C05)],
+        "C06" => vec![Box::new(c06::C06::default())],
+        "C07" => vec![Box::new(c07::C07::default())],
         "C08" => vec![Box::new(c08::C08)],
         "C09" => vec![Box::new(c09::C09::default())],
         "C10" => vec![Box::new(c10::C10::default())],
